@@ -105,6 +105,10 @@ fn check(case: &Styled2, obs: &mut Obs) {
                 for x in x0..x1 {
                     let q = Point::new(x, y);
                     let in_f = fa.contains(q);
+                    // the areas seen through the ContainsPoint trait (what generic code gets) describe the same sets
+                    if embedded_graphics::primitives::ContainsPoint::contains(&fa, q) != in_f || embedded_graphics::primitives::ContainsPoint::contains(&sa, q) != sa.contains(q) {
+                        obs.fail("areas-through-the-ContainsPoint-trait", format!("point ({x},{y}): fill_area inherent {in_f} / trait {}, stroke_area inherent {} / trait {}", embedded_graphics::primitives::ContainsPoint::contains(&fa, q), sa.contains(q), embedded_graphics::primitives::ContainsPoint::contains(&sa, q)));
+                    }
                     fa_any |= in_f;
                     if in_f {
                         if sty.fill {
